@@ -233,7 +233,9 @@ func c07(args []string) error {
 			for a := 0; a < len(cs.matrix) && ncert < maxcert; a++ {
 				for b := a + 1; b < len(cs.matrix); b++ {
 					v := cs.matrix[a][b]
-					if math.IsNaN(v) || math.IsInf(v, 0) || v <= 0 || v > 50 {
+					// beyond 8 the estimator's argument is within rounding of its boundary (e.g. exactly 0 in
+					// exact arithmetic, 5e-17 in binary64): such borderline pairs are not judged (Corr/C07.v)
+					if math.IsNaN(v) || math.IsInf(v, 0) || v <= 0 || v > 8 {
 						continue
 					}
 					// the substituted value 2*max is not the estimator's value
